@@ -121,6 +121,28 @@ fn oracle(cfg: &Cfg, input: &[u8], chunks: &[&[u8]], rr: &RunResult, clean_out: 
         if !input.ends_with(&tail) {
             return Some(format!("raw flush ++ unwritten input {:?} is not a suffix of the input", lossy(&tail)));
         }
+        // ... and it starts where the processed prefix ends: the output before the markers is
+        // what the same writes, cut off at the byte the raw flush starts with, produce — at
+        // least what they produce without end(), at most what they produce with it. (Content
+        // being removed produces no output, so the documented exception is built in; bytes
+        // lost *after* the removed content are not.)
+        let t = input.len() - tail.len();
+        let (lo, hi) = prefix_bounds(cfg, chunks, t);
+        if p.len() < lo {
+            if partial_char_lost_before(cfg, input, chunks, t) {
+                return None; // the listed finding, decided on the observer configurations
+            }
+            return Some(format!(
+                "graceful bail-out lost bytes: the raw flush starts at input offset {t} ({:?}), but the sink before the bail-out markers holds {} bytes ({:?}) while the same writes up to offset {t} normally produce {lo}",
+                lossy(&tail), p.len(), lossy(p)
+            ));
+        }
+        if p.len() > hi {
+            return Some(format!(
+                "graceful bail-out duplicated bytes: the raw flush starts at input offset {t} ({:?}), but the sink before the bail-out markers already holds {} bytes ({:?}) while the input up to offset {t} produces at most {hi}",
+                lossy(&tail), p.len(), lossy(p)
+            ));
+        }
         return None;
     }
     let mut whole = strip_markers(&rr.out);
@@ -137,6 +159,61 @@ fn oracle(cfg: &Cfg, input: &[u8], chunks: &[&[u8]], rr: &RunResult, clean_out: 
         ));
     }
     None
+}
+
+thread_local! {
+    static PREFIX_CACHE: std::cell::RefCell<std::collections::HashMap<u64, (usize, usize)>> = Default::default();
+}
+
+/// Output length of the fault-free configuration for the same writes cut off at input offset
+/// `t`: (before end(), after end()).
+fn prefix_bounds(cfg: &Cfg, chunks: &[&[u8]], t: usize) -> (usize, usize) {
+    let mut cut: Vec<&[u8]> = vec![];
+    let mut pos = 0;
+    for c in chunks {
+        if pos >= t {
+            break;
+        }
+        let take = c.len().min(t - pos);
+        cut.push(&c[..take]);
+        pos += take;
+    }
+    let base = Cfg { fail_at: None, mem: None, ..cfg.clone() };
+    let key = digest(&(&base, &cut));
+    if let Some(v) = PREFIX_CACHE.with(|c| c.borrow().get(&key).copied()) {
+        return v;
+    }
+    let rr = run_cfg(&base, &cut);
+    let v = if rr.all_ok() {
+        let n = rr.out_len_after.len();
+        (if n >= 2 { rr.out_len_after[n - 2] } else { 0 }, rr.out.len())
+    } else {
+        (0, usize::MAX)
+    };
+    PREFIX_CACHE.with(|c| {
+        let mut c = c.borrow_mut();
+        if c.len() > 200_000 {
+            c.clear();
+        }
+        c.insert(key, v);
+    });
+    v
+}
+
+/// A write boundary before `t` falls strictly inside a multi-byte character and a text handler is
+/// registered (the situation of the listed finding `decoder-held-partial-char`).
+fn partial_char_lost_before(cfg: &Cfg, input: &[u8], chunks: &[&[u8]], t: usize) -> bool {
+    if !has_text_handler(cfg) {
+        return false;
+    }
+    let mut pos = 0;
+    for c in chunks.iter().take(chunks.len().saturating_sub(1)) {
+        pos += c.len();
+        if pos > 0 && pos < input.len() && pos <= t && input[pos] & 0xC0 == 0x80 {
+            return true;
+        }
+    }
+    false
 }
 
 struct Job<'a> {
@@ -485,6 +562,15 @@ pub fn run_check(ctx: &Ctx) -> i32 {
         .iter()
         .map(|&i| (Prepared::new(Cfg { bail_out_handlers: 2, strict: false, bail_marker_suffix: "\u{e9}".into(), ..Cfg::with(handler_sets()[i].1.clone()).enc("windows-1252") }).unwrap(), true))
         .collect();
+    // handlers that remove content (the documented exception covers only the content being
+    // removed): decided by the processed-prefix bounds of `oracle`
+    let rm = |hs: Vec<HSpec>| (Prepared::new(Cfg { bail_out_handlers: 2, strict: false, ..Cfg::with(hs) }).unwrap(), true);
+    let quiet = |h: HSpec| HSpec { log: false, ..h };
+    let removing: Vec<(Prepared, bool)> = vec![
+        rm(vec![quiet(HSpec::with_ops(HKind::Element, "a", vec![Op::SetInner("\x01N\x02".into(), true)])), HSpec::obs(HKind::Element, "*"), HSpec::obs(HKind::Text, "*"), HSpec::obs(HKind::Comments, "*")]),
+        rm(vec![quiet(HSpec::with_ops(HKind::Element, "a", vec![Op::Remove])), HSpec::obs(HKind::DocText, ""), HSpec::obs_end_tag("*")]),
+        rm(vec![quiet(HSpec::with_ops(HKind::Element, "a", vec![Op::Replace("\x01R\x02".into(), true), Op::After("\x01A\x02".into(), true)])), HSpec::obs(HKind::Element, "*")]),
+    ];
     let k = F.len();
     let l1 = Levels { l1: true, l2_max_len: 0, bytewise: true, empties: false };
     let l0 = Levels { l1: false, l2_max_len: 0, bytewise: true, empties: false };
@@ -498,6 +584,8 @@ pub fn run_check(ctx: &Ctx) -> i32 {
         sweep(ctx, "Fcore<=3 x 2 handler sets x L0,LB x every handler index x flags", Space::Frags { k: F_CORE, max: 3 }, &two, l0, MemSweep::None);
         sweep(ctx, "F<=2 x 2 handler sets in windows-1252 with a non-ASCII character inside the bail-out markers x L0,L1 x every handler index + memory limits", Space::Frags { k, max: 2 }, &legacy, l1only, MemSweep::Windows);
         removal_sweep(ctx, "Fcore<=3 x 3 content-removing handler sets x a failure at every handler invocation x L1,LB: sink ++ unwritten input equals the single-write run's", Space::Frags { k: F_CORE, max: 3 }, l1);
+        sweep(ctx, "Fcore<=3 x 3 content-removing handler sets (with text / element / end-tag observers inside the removed content) x L0,L1,LB x every handler index x flags: output before the markers = what the writes up to the start of the raw flush produce", Space::Frags { k: F_CORE, max: 3 }, &removing, l1, MemSweep::None);
+        sweep(ctx, "F<=2 x 3 content-removing handler sets x L0,L1 x memory limits (every value to len+8, then every failure-moment step)", Space::Frags { k, max: 2 }, &removing, l1only, MemSweep::Windows);
         ambiguity_sweep(ctx);
     } else {
         sweep(ctx, "F<=3 x 6 handler sets x L0,L1,LB x every handler index x flags", Space::Frags { k, max: 3 }, &sets, l1, MemSweep::None);
@@ -507,13 +595,15 @@ pub fn run_check(ctx: &Ctx) -> i32 {
         sweep(ctx, "18 contexts x F<=2 x 6 handler sets x L0,L1,LB x handler index + memory limit", Space::CtxFrags { k, max: 2 }, &sets, l1, MemSweep::Windows);
         sweep(ctx, "F<=3 x 2 handler sets in windows-1252 with a non-ASCII character inside the bail-out markers x L0,L1,LB x every handler index + memory limits", Space::Frags { k, max: 3 }, &legacy, l1, MemSweep::Windows);
         removal_sweep(ctx, "F<=3 x 3 content-removing handler sets x a failure at every handler invocation x L1,L2,LB: sink ++ unwritten input equals the single-write run's", Space::Frags { k, max: 3 }, Levels { l1: true, l2_max_len: 24, bytewise: true, empties: false });
+        sweep(ctx, "F<=3 x 3 content-removing handler sets x L0,L1,LB x every handler index x flags: output before the markers = what the writes up to the start of the raw flush produce", Space::Frags { k, max: 3 }, &removing, l1, MemSweep::None);
+        sweep(ctx, "Fcore<=3 x 3 content-removing handler sets x L0,L1,LB x handler index + every memory limit", Space::Frags { k: F_CORE, max: 3 }, &removing, l1, MemSweep::Every);
         ambiguity_sweep(ctx);
     }
     ctx.finish(
         "fault_enumeration",
         RULE,
         &[
-            "documented exceptions excluded by construction: no handler removes content; text nodes are emitted in one chunk per write in these inputs (the multi-chunk duplicate case needs >1 KiB of text and is checked in the thorough long-text slice only)",
+            "documented exceptions: content being removed is allowed to be lost (it produces no output, so the processed-prefix bounds hold either way), bytes after it are not; text nodes are emitted in one chunk per write in these inputs (the multi-chunk duplicate case needs >1 KiB of text and is checked in the thorough long-text slice only)",
             "memory faults are produced by the accounting limit, not by real allocator failure",
         ],
         true,
